@@ -16,7 +16,7 @@ import time
 VERIF = os.path.dirname(os.path.dirname(os.path.abspath(__file__)))
 REPO = os.environ.get("JXLV_REPO", "/repo")
 DRIVER = os.path.join(VERIF, "driver", "target", "debug", "jxlv-driver")
-CACHE = os.path.join(VERIF, ".cache", "facts")
+CACHE = os.environ.get("JXLV_CACHE") or os.path.join(VERIF, ".cache", "facts")
 
 CONFIGS = {
     # name: (cargo args, expected crate facts)
